@@ -9,35 +9,39 @@ B2  the same TLC run prints every enumerated (topology, settings) case; each is 
 B3  every shipped network, designed with its own equipment library, is judged by the same predicates.
 """
 import json
+import os
+import time
 
 from harness import tlc
 from harness import design_util as du
 from harness.core import Machinery
 from harness.gnpy_util import EX, TD, NONE
 
-CLAUSES = ['UserAttenuatorKept', 'ChainsOneInOneOut', 'UniqueNames', 'RoadmReachabilityUnchanged', 'NothingLostNothingInvented',
+CLAUSES = ['VoaIsAttenuation', 'NoInsertionWhenNotAsked', 'UserAttenuatorKept', 'ChainsOneInOneOut', 'UniqueNames', 'RoadmReachabilityUnchanged', 'NothingLostNothingInvented',
            'EveryJunctionAmplified', 'AmplifiersOnlyAtJunctions', 'SplitIsEqualAndConservative', 'EveryAmpConfigured',
            'EveryFiberHasConnectors', 'DefaultConnectorsApplied', 'SpanAtLeastPadding']
 
 SHIPPED_QUICK = [
     (EX / 'meshTopologyExampleV2.json', EX / 'eqpt_config.json'),
     (EX / 'Sweden_OpenROADMv4_example_network.json', EX / 'eqpt_config_openroadm_ver4.json'),
-    (EX / 'Sweden_OpenROADMv5_example_network.json', EX / 'eqpt_config_openroadm_ver5.json'),
     (EX / 'multiband_example_network.json', EX / 'eqpt_config_multiband.json'),
     (EX / 'fused_roadm_example_network.json', EX / 'eqpt_config.json'),
     (EX / 'raman_edfa_example_network.json', EX / 'eqpt_config.json'),
     (EX / 'edfa_example_network.json', EX / 'eqpt_config.json'),
     (TD / 'LinkforTest.json', TD / 'eqpt_config.json'),
     (TD / 'bugfixiteratortopo.json', TD / 'eqpt_config.json'),
-    (TD / 'perdegreemeshTopologyExampleV2_auto_design_expected.json', TD / 'eqpt_config.json'),
-    (TD / 'testTopology_auto_design_expected.json', TD / 'eqpt_config.json'),
-    (TD / 'testTopology_expected.json', TD / 'eqpt_config.json'),
-    (TD / 'test_long_network.json', TD / 'eqpt_config.json'),
     (TD / 'test_network.json', TD / 'eqpt_config.json'),
     (TD / 'twohops_roadm_power_test.json', TD / 'eqpt_config.json'),
     (TD / 'network_per_frequency_loss_expected.json', TD / 'eqpt_config.json'),
 ]
-SHIPPED_THOROUGH = SHIPPED_QUICK + [
+SHIPPED_MORE = [
+    (EX / 'Sweden_OpenROADMv5_example_network.json', EX / 'eqpt_config_openroadm_ver5.json'),
+    (TD / 'perdegreemeshTopologyExampleV2_auto_design_expected.json', TD / 'eqpt_config.json'),
+    (TD / 'testTopology_auto_design_expected.json', TD / 'eqpt_config.json'),
+    (TD / 'testTopology_expected.json', TD / 'eqpt_config.json'),
+    (TD / 'test_long_network.json', TD / 'eqpt_config.json'),
+]
+SHIPPED_THOROUGH = SHIPPED_QUICK + SHIPPED_MORE + [
     (EX / 'CORONET_CONUS_Topology.json', EX / 'eqpt_config.json'),
     (EX / 'CORONET_Global_Topology.json', EX / 'eqpt_config.json'),
     (TD / 'CORONET_Global_Topology_expected.json', TD / 'eqpt_config.json'),
@@ -56,8 +60,12 @@ def features(case):
     raman_after_roadm = any(e['t'] == 'Roadm' and any(case['g'][j - 1]['t'] == 'RamanFiber' for j in e['s'])
                             for e in case['g'])
     per_freq = any(e.get('ct') for e in case['g'])
+    opts = sorted({e['o'] for e in case['g'] if e.get('o') and e['o'] != 'pmd'})
+    if opts:          # user parameters beyond the basic ones: the class of the case is that parameter
+        return '|'.join(f'opt={o}' for o in opts) + ('' if case['s'].get('insert', True) else '|no_insert_edfas')
     return (f"raman={int('RamanFiber' in types)}|raman_after_roadm={int(raman_after_roadm)}|"
-            f"fused={int('Fused' in types)}|useramp={int(user_amp)}" + ('|perfreq=1' if per_freq else ''))
+            f"fused={int('Fused' in types)}|useramp={int(user_amp)}" + ('|perfreq=1' if per_freq else '')
+            + ('' if case['s'].get('insert', True) else '|no_insert_edfas'))
 
 
 def case_name(case):
@@ -93,9 +101,12 @@ def case_name(case):
                 x = g[x['s'][0] - 1]
             chains.append(f"{e['n'][-1]}{x['n'][-1]}:" + '-'.join(parts))
     s = case['s']
+    chains = [f"{e['n']}+{e['o']}" for e in g if e['t'] == 'Roadm' and e.get('o')] + chains
     return ' '.join(chains) + f" | pad={s['padding'] // 1000000} eol={s['eol'] // 1000000} " \
                               f"max={s['maxLen'] // 1000} {'power' if s['powerMode'] else 'gain'}" \
-                              f"{' SI=ampband' if s.get('siBand') and s['siBand'] == s.get('ampBand') else ''}"
+                              f"{' SI=ampband' if s.get('siBand') and s['siBand'] == s.get('ampBand') else ''}" \
+                              f"{' maxlen-in-m' if s.get('lenUnits') == 'm' else ''}" \
+                              f"{'' if s.get('insert', True) else ' no-insert'}"
 
 
 def _b2_one(c):
@@ -107,8 +118,11 @@ def _b2_one(c):
     s['lib'] = sorted(eq['Edfa'].keys())
     s['maxLen'] = s['maxLen'] * 100                         # the model counts metres, observations are in cm
     try:
-        before, names, net, _, _ = du.design(topo, eq)
+        # amplifier insertion off = the public entry point's no_insert_edfas=True
+        before, names, net, _, _ = du.design(topo, eq, no_insert_edfas=not s.get('insert', True))
         g = du.project_network(net, names)
+    except Machinery:
+        raise
     except Exception as e:                                   # noqa - an exception on a well-formed topology
         msg, tb = du.exc_text(e)
         return None, (f'B2|exception|{type(e).__name__}|{features(c)}',
@@ -118,6 +132,7 @@ def _b2_one(c):
 
 def b2_traces(cases, chk):
     """run the real design on every TLC case; returns trace records (one Design event each)"""
+    du.equipment_base('example-data')                          # parsed once, inherited by the workers
     traces = []
     for c, (tr, viol) in zip(cases, du.parallel_map(_b2_one, cases)):
         if viol:
@@ -141,6 +156,8 @@ def b3_traces(pairs, chk):
         try:
             before, names, net, _, _ = du.design(du.as_loadable(doc), eq)
             g = du.project_network(net, names)
+        except Machinery:
+            raise
         except Exception as e:                                   # noqa
             msg, tb = du.exc_text(e)
             chk.violation(f'B3|{name}|exception|{type(e).__name__}', dict(network=name, exception=msg, traceback=tb))
@@ -177,19 +194,43 @@ def judge(traces, chk, tag, batch=400):
 
 def run(chk):
     tier = chk.tier
-    # ---- B1 + emission of the cases for B2 in one exhaustive run
-    r = tlc.run('MC_DesignStructure', cfg_text=mc_cfg(tier), timeout=3000, tag='c08-mc')
-    chk.add_mc(f'MC_DesignStructure Tier={tier} (all C08 clauses as invariants)', r)
+    # ---- B1 (+ emission of the cases for B2: thorough in the same exhaustive run; quick: B1 explores the model under
+    # four settings per topology and a second, enumeration-only run lists the cases of the half fraction for B2)
+    t0 = time.time()
+    w = min(int(os.environ.get('VERIF_TLC_WORKERS', '16')), 6)       # ~20-400 k states: more workers only add contention
+    if tier == 'thorough':
+        r = tlc.run('MC_DesignStructure', cfg_text=mc_cfg(tier), timeout=3000, tag='c08-mc', workers=w)
+        chk.add_mc(f'MC_DesignStructure Tier={tier} (all C08 clauses as invariants)', r)
+        cases = r.emitted
+    else:
+        r = tlc.run('MC_DesignStructure', cfg_text=mc_cfg('b1quick', emit=False), timeout=3000, tag='c08-mc', workers=w)
+        chk.add_mc('MC_DesignStructure Tier=b1quick (all C08 clauses as invariants)', r)
+        e = tlc.run('MC_DesignStructure', cfg_text=mc_cfg('quick') + 'CONSTRAINT InitialOnly\n', timeout=3000,
+                    tag='c08-emit', workers=w)
+        if not e.ok:
+            raise Machinery(f'case enumeration failed: {e.error}')
+        cases = e.emitted
     chk.exhaustive = True
-    cases = r.emitted
+    chk.cov['t_b1_s'] = round(time.time() - t0, 1)
     if not cases:
         raise Machinery('MC_DesignStructure emitted no case')
+    chk.cov['b2_cases_listed'] = len(cases)
+    if tier == 'quick':
+        # sample of the listed cases that the real code designs in the quick tier: the max_length = 150 km quarter of the
+        # half fraction (padding, EOL, mode pairwise complete; SI band and length unit are functions of them) for every
+        # topology, the 80 km quarter too where a fibre of 95 km or more has to be split differently
+        cases = [c for c in cases if c['s']['maxLen'] > 100000 or any(e['l'] >= 95000 for e in c['g'])]
+        big = sorted((c for c in cases if sum(1 for e in c['g'] if e['t'] == 'Roadm') > 2), key=case_name)
+        drop = {case_name(c) for k, c in enumerate(big) if k % 3 != chk.seed % 3}       # a third of the 3-ROADM cases
+        cases = [c for c in cases if case_name(c) not in drop]
     chk.cov['b2_cases_enumerated'] = len(cases)
     if tier == 'thorough':
         witnesses(chk)
     # ---- B2
     traces = b2_traces(cases, chk)
+    chk.cov['t_b2_designed_s'] = round(time.time() - t0, 1)
     verdicts = judge(traces, chk, 'c08-b2')
+    chk.cov['t_b2_judged_s'] = round(time.time() - t0, 1)
     exercised = set()
     for t in traces:
         v = verdicts[t['name']]
